@@ -111,14 +111,20 @@ def vr_length_boundaries(k0: int, k1: int, pad: int, tl: bool) -> bool:
             n = VR_LENGTHS[k] - 8 - extra
             payload = bytes([(7 * i + r) % 251 for i in range(n)])
             recs.append((r == 0, 3 + r, [dict(payload=payload, pad=pad + pad % 2, checksum=False, trailing=tl, encrypted=False, new_vr=True)]))
-        sul = b'0001V1.00RECORD16384' + b'Default Storage Set'.ljust(60)
+        # the label declares the largest visible record of the file as its maximum record length (RP66V1 2.3.2)
+        mx = max(VR_LENGTHS[k0], VR_LENGTHS[k1], 20 + 40 * pad)
+        sul = b'0001V1.00RECORD' + [b'%05d', b'%5d'][tl] % mx + b'Default Storage Set'.ljust(60)
         data, layout = R.encode(recs, sul)
         for r, k in enumerate((k0, k1)):
             if ((data[layout[r][0]] << 8) | data[layout[r][0] + 1]) != VR_LENGTHS[k]:
                 return True       # (cannot happen: the builder is exact)
         got = _read_all(data)
         mark.hit()
-        return got == R.expected(recs)
+        if got != R.expected(recs):
+            return False
+        with pFile.FileRead(SymFile(data)) as fr:
+            lab = fr.sul
+        return lab.maximum_record_length == mx and lab.storage_unit_sequence_number == 1 and lab.storage_set_identifier == b'Default Storage Set'.ljust(60)
 
 
 def sul_fields_seq(d1: int, d2: int, d3: int) -> bool:
@@ -137,6 +143,16 @@ def sul_fields_max(m2: int, m3: int, m4: int) -> bool:
     post: _
     """
     return _sul_fields(0, 0, 1, 0, 10, 0, m2, m3, m4)
+
+
+def sul_fields_max_high(m1: int, m2: int, m3: int, m4: int) -> bool:
+    """
+    pre: 0 <= m1 <= 6 and 0 <= m2 <= 9 and 0 <= m3 <= 9 and 0 <= m4 <= 9
+    pre: PART < 0 or m1 == PART
+    post: _
+    """
+    # five significant digits: 10000 .. 16384
+    return _sul_fields(0, 0, 1, 0, 1, m1, m2, m3, m4)
 
 
 def _sul_fields(d0, d1, d2, d3, m0, m1, m2, m3, m4):
